@@ -335,6 +335,11 @@ def run(fx, rep):
         pv = F.Prov(b)
         got = [[('|'.join(terms(pv, a))) for a in t['args']] for bi, t in b.calls() if F.norm_callee(t) == 'std::vec::Vec::push']
         rep.check(got == want_calls, 'R4', 'LogicManager::add_term/appends', b.loc(), 'terms.push(expr); ops.push(op_id)', 'add_term performs %s' % got)
+    for lb in fx.bodies.values():
+        if lb.crate == 'cel_parser' and re.match(r'^cel_parser::parser::LogicManager::\w+(::\{closure#\d+\})*$', F.norm_path(lb.path)):
+            ro = sorted({F.norm_callee(t) for bi, t in lb.calls() if re.search(r'::(sort\w*|reverse|swap|rotate_\w+|retain|dedup\w*|swap_remove|rev|select_nth\w*|partition\w*)$', F.norm_callee(t) or '') and '::mem::' not in (F.norm_callee(t) or '')})
+            if ro:
+                rep.violation('R4', 'LogicManager/reorders-terms/%s' % F.norm_path(lb.path).rsplit('::', 1)[-1], lb.loc(), '%s reorders the terms of a logical chain with %s: `a && b` and `b && a` differ in what is skipped' % (F.norm_path(lb.path), ro))
     bt = [x for x in fx.bodies.values() if F.norm_path(x.path) == 'cel_parser::parser::LogicManager::balanced_tree']
     if len(bt) != 1:
         raise F.Lost('balanced_tree not found')
@@ -357,7 +362,7 @@ def run(fx, rep):
             return feeding_call(rv_['op']['place']['l'], depth + 1)
         return None
     for bi, t in b.calls():
-        if F.norm_callee(t) == 'std::mem::take':
+        if F.norm_callee(t) in ('std::mem::take', 'std::mem::replace'):
             l0 = F.op_local(t['args'][0])
             im = feeding_call(l0) if l0 is not None else None
             if im is not None and F.norm_callee(im) in ('std::ops::IndexMut::index_mut', 'std::ops::Index::index'):
@@ -370,7 +375,7 @@ def run(fx, rep):
         for x in pv.of_operand(agg[0]['rv']['ops'][idx]):
             if x[0] == 'stored' and x[1][0] == 'agg' and len(x[1][2]) == 2:
                 for side, e in ((left, x[1][2][0]), (right, x[1][2][1])):
-                    if e[0] == 'call' and e[1] == 'std::mem::take':
+                    if e[0] == 'call' and e[1] in ('std::mem::take', 'std::mem::replace') and e[3] in takes:
                         side.add(('take', tuple(takes[e[3]][1])))
                     elif e[0] == 'call' and F.norm_path(e[1]) == 'cel_parser::parser::LogicManager::balanced_tree':
                         side.add(('rec', F.term_str(e[2][1]), F.term_str(e[2][2])))
@@ -525,7 +530,15 @@ def run(fx, rep):
         dc = set(re.findall(r'"k": "Downcast"[^{}]*"name": "(\w+)"', txt)) | set(re.findall(r'"name": "(\w+)"[^{}]*"k": "Downcast"', txt))
         fn = re.sub(r'::\{closure#\d+\}', '', F.norm_path(pb.path))
         fn = re.sub(r'^<([\w:]+) as [^>]*(<[^>]*>)?[^>]*>::', lambda mm: mm.group(1) + '::', fn)
-        bad = (dc & ev) - ALLOWED.get(fn, set())
+        # `matches!(e.expr, Expr::Literal(_))` reads the discriminant without a downcast
+        for _, _, st9 in pb.stmts():
+            if st9['k'] == 'Assign' and st9['rv']['k'] == 'Discriminant':
+                pl9 = st9['rv']['place']
+                ty9 = pb.locals[pl9['l']]['ty'] if pl9['l'] < len(pb.locals) else ''
+                if any(pr.get('k') == 'Field' and pr.get('name') == 'expr' for pr in pl9.get('p', [])) and 'IdedExpr' in ty9 or \
+                   (re.search(r'cel_parser::ast::Expr$', ty9.replace('&', '').strip()) and not any(pr.get('k') == 'Field' for pr in pl9.get('p', []))):
+                    dc = dc | {'(discriminant)'}
+        bad = ((dc & ev) | (dc & {'(discriminant)'})) - ALLOWED.get(fn, set()) - ({'(discriminant)'} if fn in ALLOWED else set())
         for v in sorted(bad):
             rep.violation('R9', 'inspects-built-expression/%s/%s' % (fn.split('::', 1)[-1], v), pb.loc(),
                           '%s matches on Expr::%s of an expression that is already built: grouping written in the source (parentheses, receiver/argument boundaries) can be undone there' % (fn, v))
